@@ -152,11 +152,11 @@ binary part. -/
 def Tree.proveNodes (A : HashAlg H) (legacy cached : Bool) : Tree H → Path → List (PNode H)
   | .leaf _, _ => []
   | .bin l r, k =>
-    (Tree.bin l r).pnode A cached |>.toList ++
+    ((Tree.bin l r).pnode A cached).toList ++
       (if k.headD false then r.proveNodes A legacy cached k.tail
        else l.proveNodes A legacy cached k.tail)
   | .edge p c, k =>
-    (Tree.edge p c).pnode A cached |>.toList ++
+    ((Tree.edge p c).pnode A cached).toList ++
       (if p.isPrefixOf k then c.proveNodes A legacy cached (k.drop p.length)
        else if legacy then (c.pnode A cached).toList else [])
 
